@@ -11,7 +11,7 @@ STOCH_MODES = ["ssa", "safe_ssa", "volume", "delay", "lineage"]
 ALL_MODES = ["deterministic"] + STOCH_MODES
 
 
-def simulate(sp, grid, mode, seed, extend=False):
+def simulate(sp, grid, mode, seed, extend=False, via_interface=False):
     """Returns (rows as array in spec species order).  extend: the model is initialised by its constructor, then
     given one more (unused) parameter - which un-initialises it - and simulated, so that it is initialised twice."""
     from bioscrape.simulator import py_simulate_model
@@ -32,6 +32,15 @@ def simulate(sp, grid, mode, seed, extend=False):
             kw = {"deterministic": dict(stochastic=False), "ssa": dict(stochastic=True),
                   "safe_ssa": dict(stochastic=True, safe=True), "volume": dict(stochastic=True, volume=1.0),
                   "delay": dict(stochastic=True, delay=True)}[mode]
+            if via_interface:
+                # the documented alternative to Model=: a pre-built interface (built with its default configuration)
+                from bioscrape.simulator import ModelCSimInterface, SafeModelCSimInterface
+                kw = dict(kw)
+                I = SafeModelCSimInterface(M) if kw.pop("safe", False) else ModelCSimInterface(M)
+                r = py_simulate_model(tp, Interface=I, return_dataframe=False, **kw)
+                order = [M.get_species2index()[s_] for s_ in sp["species"]]
+                return (np.asarray(r.py_get_result(), dtype=float)[:, order],
+                        np.asarray(r.py_get_timepoints(), dtype=float))
             df = py_simulate_model(tp, Model=M, **kw)
     return df[sp["species"]].to_numpy(dtype=float), df["time"].to_numpy(dtype=float)
 
@@ -66,7 +75,10 @@ def check(case):
     res = R()
     sp, grid, mode, sub = case["spec"], case["grid"], case["mode"], case["sub"]
     dt = grid[1] - grid[0]
-    rows, times = simulate(sp, grid, mode, case["seed"], extend=bool(case.get("extend")))
+    via = bool(case.get("via_interface")) and mode != "lineage"
+    rows, times = simulate(sp, grid, mode, case["seed"], extend=bool(case.get("extend")), via_interface=via)
+    if via:
+        res.label("through_a_prebuilt_interface")
     if case.get("extend"):
         res.label("initialised_twice")
     names = sp["species"]
@@ -293,7 +305,7 @@ def cases(draw):
         mode = draw(st.sampled_from(ALL_MODES))
         case = draw(chain_case(mode)) if kind == "chain" else draw(rate_case(mode))
     case.update(kind="rules", mode=mode, grid=grid, seed=draw(st.integers(1, 2 ** 40)),
-                extend=draw(st.integers(0, 3)) == 0)
+                extend=draw(st.integers(0, 3)) == 0, via_interface=draw(st.integers(0, 2)) == 0)
     return case
 
 
